@@ -406,8 +406,9 @@ func (m *Model) Paths() []PathNode {
 	var out []PathNode
 	var walk func(prefix string, n *Node, stack map[int]bool)
 	walk = func(prefix string, n *Node, stack map[int]bool) {
-		out = append(out, PathNode{Path: prefix, Node: n})
-		if n.Kind != "group" || stack[n.ID] {
+		cut := n.Kind == "group" && stack[n.ID]
+		out = append(out, PathNode{Path: prefix, Node: n, Cut: cut})
+		if n.Kind != "group" || cut {
 			return
 		}
 		stack[n.ID] = true
@@ -428,6 +429,7 @@ func (m *Model) Paths() []PathNode {
 type PathNode struct {
 	Path string
 	Node *Node
+	Cut  bool // a group reached again on its own path (cycle): listed, not descended into
 }
 
 // SortedNames returns the child names sorted.
